@@ -652,6 +652,7 @@ def select_aggregated(query_context, key, transparent_values):
 
 
 PROCESS_SELECT_COMMON = '''
+query_context.unnest_list = None
 __RBQLMP__variables_init_code
 if __RBQLMP__where_expression:
     out_fields = __RBQLMP__select_expression
